@@ -489,7 +489,11 @@ func (p *Packer) Unpack(r io.Reader, dst string) error {
 		// A directory or regular file entry replaces a symlink extracted
 		// earlier under the same name; it must never be written, or have its
 		// mode and times set, through that link to wherever it points.
-		if info.IsDirectory() || info.IsRegular() {
+		//
+		// An entry that names the root of the slug ("./", ".", "/", "a/..")
+		// is dst itself. dst is not something the slug created: when it is
+		// a symlink, that link lives in dst's parent directory and stays.
+		if (info.IsDirectory() || info.IsRegular()) && filepath.Clean(info.Path) != filepath.Clean(dst) {
 			if err := removeSymlink(info.Path); err != nil {
 				return fmt.Errorf("failed to replace symlink %q: %w", info.Path, err)
 			}
